@@ -14,11 +14,14 @@ from ..engines.typecase import TypeCase, events_matching
 def check(ctx: Ctx) -> None:
     _check(ctx)
     # fusion of overlapping notes is done by normalise's nesting stacks: the same STACK rules as C07
-    from .c07 import stack_rules, FN as NFN
+    from .c07 import stack_rules, sig_rules, FN as NFN
     from .c05 import message_loop, output_list_name
     nfi = ctx.p.func(NFN)
     ctx.analysed(nfi)
-    stack_rules(ctx, nfi, message_loop(nfi.node), output_list_name(nfi.node))
+    nloop = message_loop(nfi.node)
+    stack_rules(ctx, nfi, nloop, output_list_name(nfi.node))
+    # "every signature event that does not repeat the one in force is kept": the repetition filter of the same normaliser
+    sig_rules(ctx, nfi, nloop, nloop.target.id)
     from ..engines.typestate import check_wrappers
     check_wrappers(ctx, ['merge'])
 
